@@ -362,6 +362,12 @@ func hprograms() []*hprog {
 			Prefix: []hop{add("a"), rdy("a"), add("b")}, Threads: [][]hop{{rdy("b")}, {g}}},
 		{Name: "H6 a ready: add(b);ready(b) || get;get (release points)", ReleasePoints: true,
 			Prefix: []hop{add("a"), rdy("a")}, Threads: [][]hop{{add("b"), rdy("b")}, {g, g}}},
+		// "all ready" is never true in these two: the not-ready component moves from b to a (from a to b) while a
+		// status request walks the components - it must not see the old state of one and the new state of the other
+		{Name: "H7 a ready, b not: re-register a;ready(b) || get (release points)", ReleasePoints: true,
+			Prefix: []hop{add("a"), rdy("a"), add("b")}, Threads: [][]hop{{add("a"), rdy("b")}, {g}}},
+		{Name: "H8 b ready, a not: re-register b;ready(a) || get (release points)", ReleasePoints: true,
+			Prefix: []hop{add("a"), add("b"), rdy("b")}, Threads: [][]hop{{add("b"), rdy("a")}, {g}}},
 	}
 }
 
